@@ -86,6 +86,9 @@ struct Judge<'a> {
     continued_spans: usize,
     frame_current_hop_with_spans: bool,
     unsampled_nonroot_spans: usize,
+    handoffs: usize,
+    handoff_sampled_with_descendants: bool,
+    handoff_unsampled_nonroot_with_descendants: bool,
 }
 
 fn count_spans(items: &[PItem]) -> usize {
@@ -254,6 +257,17 @@ impl<'a> Judge<'a> {
             a.sampled()
         };
 
+        if n.form.is_handoff() {
+            self.handoffs += 1;
+            let descendants = count_spans(&n.items) > 0;
+            if descendants && sampled {
+                self.handoff_sampled_with_descendants = true;
+            }
+            // a NON-ROOT span of an unsampled trace whose own frame is entered away from its parent
+            if descendants && !sampled && !root {
+                self.handoff_unsampled_nonroot_with_descendants = true;
+            }
+        }
         let got = self.span_recs.remove(&n.id).unwrap_or_default();
         if !sampled {
             vassert!(cx, got.is_empty(), "unsampled-span-emitted", "node {} is in an unsampled trace but {} span event(s) reached the emitter", n.id, got.len());
@@ -338,6 +352,9 @@ impl<'a> Judge<'a> {
                 let saved = std::mem::replace(&mut self.in_header_scope, false);
                 self.items(&n.items, inner, cx)?;
                 self.in_header_scope = saved;
+                if let Some(far_end) = n.far_end {
+                    self.check(far_end, if a.unknown { a } else { NOTHING }, cx, "far thread, after the span's own frame was left")?;
+                }
                 self.check(n.post, a, cx, "after span")
             }
             PItem::Join { tasks, post, .. } => {
@@ -516,6 +533,9 @@ pub fn judge(case: &Case, prog: &Prog, recs: &[Rec], log: &[L], cx: &mut Cx) -> 
         continued_spans: 0,
         frame_current_hop_with_spans: false,
         unsampled_nonroot_spans: 0,
+        handoffs: 0,
+        handoff_sampled_with_descendants: false,
+        handoff_unsampled_nonroot_with_descendants: false,
     };
 
     for r in recs {
@@ -609,6 +629,9 @@ pub fn judge(case: &Case, prog: &Prog, recs: &[Rec], log: &[L], cx: &mut Cx) -> 
     cx.class_if(!j.hop_entry.is_empty(), "thread-hop-carried");
     cx.class_if(j.frame_current_hop_with_spans, "frame-current-hop-with-spans");
     cx.class_if(migrated_polls > 0, "async-join-polls-migrate-threads");
+    cx.class_if(j.handoffs > 0, "own-frame-handoff");
+    cx.class_if(j.handoff_sampled_with_descendants, "own-frame-handoff-sampled-with-descendants");
+    cx.class_if(j.handoff_unsampled_nonroot_with_descendants, "own-frame-handoff-unsampled-nonroot-with-descendants");
     cx.class_if(case.no_sampler, "no-sampler");
     // TraceparentFilter::new() alone, a valid unsampled incoming header, spans that inherit its flag
     cx.class_if(case.no_sampler && case.in_sampled.is_none() && j.incoming_unsampled && j.unsampled_nonroot_spans > 0, "no-sampler-unsampled-incoming-with-spans");
